@@ -20,15 +20,22 @@ sys.path.insert(0, os.path.join(HERE, "tools"))
 import seeded as S  # noqa
 
 
-def cmd_prompts(out):
+def cmd_prompts(out, rnd=""):
     props = [json.loads(l) for l in open(os.path.join(HERE, "properties.jsonl"))]
+    earlier = {}
+    root = os.path.join(HERE, "benign")
+    for n in sorted(os.listdir(root)) if os.path.isdir(root) else []:
+        mp = os.path.join(root, n, "meta.json")
+        if os.path.exists(mp):
+            m = json.load(open(mp))
+            earlier.setdefault(m["property"], []).append(" - %s" % (m.get("summary", "")[:240].replace("\n", " ")))
     for p in props:
         pid = p["id"]
-        w = "/tmp/benign_%s" % pid
+        w = "/tmp/benign%s_%s" % (rnd, pid)
         o = os.path.join(out, pid)
         os.makedirs(o, exist_ok=True)
         open(os.path.join(o, "prompt.txt"), "w").write(TEMPLATE.format(
-            w=w, o=o, pid=pid, title=p["title"], statement=p["statement"], quant=p["quantifier"]["text"]))
+            w=w, o=o, pid=pid, title=p["title"], statement=p["statement"], quant=p["quantifier"]["text"]) + (ROUND2 % "\n".join(earlier.get(pid, [])) if rnd else ""))
     print(len(props), "prompts in", out)
 
 
@@ -56,7 +63,15 @@ QUANTIFIED OVER: {quant}
 """
 
 
-def cmd_import(src, prop):
+ROUND2 = """
+
+IMPORTANT — this is a SECOND round. The changes below were already delivered for this property; yours must be DIFFERENT in kind. Angles not used much yet: behaviour for inputs just OUTSIDE the quantified domain (other schemes, hosts the statement excludes, malformed or empty input, other argument types, options the statement does not mention); a different exception type / message / return type where the statement only says "raises" or says nothing; output that differs in a way the statement explicitly treats as equivalent ("up to letter case", "in any order", "one of"); refreshed DATA (a newer public-suffix list entry, one more shortener / platform domain, one more language or country code) applied consistently; a stricter validation that rejects what no input of the domain contains; a performance rewrite (memoisation keyed on ALL relevant arguments, precompiled tables, iterative instead of recursive) whose results are identical on the domain but differ in type (tuple vs list, generator vs list) or in laziness; changes in a function the property only uses indirectly. Be just as honest as before: the property must really still hold.
+Already delivered (do NOT repeat):
+%s
+"""
+
+
+def cmd_import(src, prop, suffix=""):
     kept = []
     for x in "abcdef":
         d = os.path.join(src, x + ".diff")
@@ -77,7 +92,7 @@ def cmd_import(src, prop):
             print(prop, x, "tests_pass=%s demo_with=%s demo_without=%s -> %s" % (ok, rc_mut, rc_clean, "KEEP" if verdict else "REJECT"))
             if not verdict:
                 continue
-            dest = os.path.join(HERE, "benign", "%s-%s" % (prop, x))
+            dest = os.path.join(HERE, "benign", "%s-%s%s" % (prop, x, suffix))
             os.makedirs(dest, exist_ok=True)
             shutil.copy(d, os.path.join(dest, "patch.diff"))
             shutil.copy(dm, os.path.join(dest, "demo.py"))
@@ -132,9 +147,9 @@ def cmd_run(names, tier, seeds):
 
 if __name__ == "__main__":
     if sys.argv[1] == "prompts":
-        cmd_prompts(sys.argv[2])
+        cmd_prompts(sys.argv[2], sys.argv[3] if len(sys.argv) > 3 else "")
     elif sys.argv[1] == "import":
-        cmd_import(sys.argv[2], sys.argv[3])
+        cmd_import(sys.argv[2], sys.argv[3], sys.argv[4] if len(sys.argv) > 4 else "")
     elif sys.argv[1] == "run":
         args = sys.argv[2:]
         seeds = [1]
